@@ -31,6 +31,16 @@ type vShimControl struct {
 	// at most 1.5 s, then fail), writes fail at once
 	outage    bool
 	outageEnd chan struct{}
+	// outageWrites: write attempts (begin / exec / commit) made while unreachable
+	outageWrites int
+}
+
+func (c *vShimControl) takeOutageWrites() int {
+	c.Lock()
+	defer c.Unlock()
+	n := c.outageWrites
+	c.outageWrites = 0
+	return n
 }
 
 // setOutage switches the simulated unreachability of this database.
@@ -76,6 +86,9 @@ func (c *vShimControl) step(what string) bool {
 	c.Unlock()
 	if out {
 		if what == "begin" || what == "commit" || strings.HasPrefix(what, "exec:") {
+			c.Lock()
+			c.outageWrites++
+			c.Unlock()
 			return true
 		}
 		select {
